@@ -1283,10 +1283,10 @@ pub fn run(args: &Args) -> i32 {
         "observation outside the property text (class obs_update_emits_retire_event): BackendList::add_backend on an existing (address, id) drops the temporary Backend value, whose Drop impl emits REMOVED_BACKEND_HAS_NO_CONNECTIONS for a backend that is still live; the model expects this event so that the drain-then-retire oracle stays exact".to_string(),
     );
     const SUBS: [(&str, Mode, u64, u64); 4] = [
-        ("history", Mode::History, 15_000, 300_000),
-        ("power_of_two", Mode::PowerOfTwo, 3_000, 60_000),
-        ("affinity_hrw", Mode::Hrw, 3_000, 60_000),
-        ("affinity_maglev", Mode::Maglev, 2_000, 40_000),
+        ("history", Mode::History, 75_000, 1_500_000),
+        ("power_of_two", Mode::PowerOfTwo, 15_000, 300_000),
+        ("affinity_hrw", Mode::Hrw, 15_000, 300_000),
+        ("affinity_maglev", Mode::Maglev, 10_000, 200_000),
     ];
     for (sub, mode, quick, thorough) in SUBS {
         ev.floor(sub, "selection_with_ineligible_member", 0.5);
